@@ -272,8 +272,14 @@ class LocalStorageBackend(StorageBackend):
         )
 
         try:
-            # Write content to temp file
-            os.write(fd, content)
+            # Write content to temp file. write(2) may take only part of the
+            # buffer (nearly full disk, a signal, payloads beyond 2 GiB) and says
+            # so in its return value: keep writing until everything went out, or
+            # a truncated file would be fsynced, renamed into place and committed.
+            view = memoryview(content)
+            while len(view) > 0:
+                written = os.write(fd, view)
+                view = view[written:]
 
             # Ensure data is written to disk (durability guarantee)
             os.fsync(fd)
